@@ -405,6 +405,10 @@ def run(ctx, spec):
             algo = ALGOS[(k + spec["i"]) % len(ALGOS)]
             small = k % 4 == 0
             case = random_case(rng, algo, 6 if small else 10, 5 if small else 8, 4)
+            if k % 16 == 3 and SC.kind_of(algo) == "plain":
+                Gc, Sc, lmc, cc = gen.chain_case(rng)
+                case = {"algo": algo, "G": Gc, "S": Sc, "leafmap": lmc, "costs": cc}
+                ctx.count("chain_cases")
             if k % 8 == 5:
                 # a multifurcating input for an extended solver: the relations hold for it as well (the optimum and the
                 # optimal set over all refinements must not depend on the order in which a node's children are written)
